@@ -293,6 +293,21 @@ EXTRA = [
     c = 2
   return bump(n)
 '''),
+    ('e:class_body_reads', '''def f(x, n, b, xs):
+  c = 1
+  r = 0
+  for i in range(n):
+    class K(object):
+      val = c + i
+      other = x if b else val
+      def get(self):
+        return self.val + r
+    r = K().get()
+    c = r + 1
+  class Last(K if n else object):
+    top = r
+  return (r, Last.top)
+'''),
     ('e:maybe_undefined', '''def f(x, n, b, xs):
   if b:
     u = 1
